@@ -143,6 +143,33 @@ class CondDomain(Domain):
                                  for d in inits):
                     self.counters.add(n.target.id)
 
+        # deferred rendering: the loop only selects the body
+        #     body = block[i + 2]; break   ...   if body: render(body, ...)
+        # the selecting assignment then stands for the render site and the
+        # one render call after the loop is the same render, not another
+        loop = a['loop']
+        inside = {id(x) for x in ast.walk(loop)}
+        after = set()
+        for n in own_nodes(fi.node):
+            if id(n) not in inside and self.is_render(n) and \
+                    isinstance(n.args[0], ast.Name):
+                after.add(n.args[0].id)
+        self.deferred = set()
+        for n in ast.walk(loop):
+            if isinstance(n, ast.Assign) and len(n.targets) == 1 and \
+                    isinstance(n.targets[0], ast.Name) and \
+                    n.targets[0].id in after and \
+                    n.targets[0].id != a['cond'] and any(
+                        isinstance(x, ast.Subscript)
+                        for x in ast.walk(n.value)):
+                self.deferred.add(n.targets[0].id)
+
+    def is_select(self, stmt):
+        return isinstance(stmt, ast.Assign) and len(stmt.targets) == 1 and \
+            isinstance(stmt.targets[0], ast.Name) and \
+            stmt.targets[0].id in self.deferred and any(
+                isinstance(x, ast.Subscript) for x in ast.walk(stmt.value))
+
     def cond_names(self):
         a = self.a
         names = a.get('_cond_names')
@@ -171,7 +198,9 @@ class CondDomain(Domain):
 
     def is_render(self, n):
         return isinstance(n, ast.Call) and isinstance(n.func, ast.Name) and \
-            n.func.id in self.a['renderers'] and len(n.args) >= 3
+            n.func.id in self.a['renderers'] and len(n.args) >= 3 and not (
+                isinstance(n.args[0], ast.Name) and
+                n.args[0].id in getattr(self, 'deferred', ()))
 
     def raises(self, node, st):
         for n in ast.walk(node):
@@ -187,7 +216,7 @@ class CondDomain(Domain):
             if self.is_eval(n):
                 ns = ns.copy()
                 ns.evals += 1
-            if self.is_render(n):
+            if self.is_render(n) or (n is stmt and self.is_select(stmt)):
                 self.body_renders += 1
                 ns = ns.copy()
                 if ns.undef:
@@ -523,6 +552,18 @@ class _ShorthandDomain(Domain):
         if isinstance(e, ast.Name) and e.id == self.expr_param and \
                 st.env.get(e.id) is None:
             return True                 # the tag supports expr
+        if isinstance(e, ast.Name) and st.env.get(e.id) in ('TRUE',
+                                                            'FALSE'):
+            return st.env[e.id] == 'TRUE'
+        if isinstance(e, ast.BoolOp):
+            vals = [self.truth(v, st) for v in e.values]
+            if isinstance(e.op, ast.And):
+                if any(v is False for v in vals):
+                    return False
+                return True if all(v is True for v in vals) else None
+            if any(v is True for v in vals):
+                return True
+            return False if all(v is False for v in vals) else None
         if isinstance(e, ast.Compare) and len(e.ops) == 1:
             l, op, rt = e.left, e.ops[0], e.comparators[0]
             if isinstance(rt, ast.Constant) and rt.value == '"' and \
@@ -555,6 +596,11 @@ class _ShorthandDomain(Domain):
                     c.endswith(':Eval')
                     for c in self.model.callee_names(v, self.fi)):
                 kind = 'EVAL'
+            if kind is None and isinstance(v, (ast.BoolOp, ast.Compare,
+                                               ast.UnaryOp)):
+                t = self.truth(v, st)
+                if t is not None:
+                    kind = 'TRUE' if t else 'FALSE'
             st = st.copy()
             st.env[stmt.targets[0].id] = kind or 'OTHER'
         return st
@@ -1064,12 +1110,29 @@ def rule_not_found_protocol(model):
     # ---- writer: TemplateDict.getitem raises KeyError(key) only
     nwrite = 0
     g0 = model.func('_DocumentTemplate', 'TemplateDict.getitem')
-    for g in model.closure(g0):
-        if g.cls is not g0.cls:
-            continue
+    clo0 = model.closure(g0)
+    key0 = g0.params()[1] if len(g0.params()) > 1 else None
+
+    def key_of(g, depth=0):
         # the key: the second parameter of the lookup, or the parameter of
-        # a helper of the class that receives it
-        key = g.params()[1] if len(g.params()) > 1 else None
+        # a helper to which every call site hands the caller's key
+        if g is g0:
+            return key0
+        if depth > 2:
+            return None
+        got = set()
+        for h, c, m in model.helper_calls(clo0, g):
+            kh = key_of(h, depth + 1)
+            if m is None or kh is None:
+                return None
+            ps = [p_ for p_, a_ in m.items()
+                  if isinstance(a_, ast.Name) and a_.id == kh]
+            got.add(ps[0] if len(ps) == 1 else None)
+        return got.pop() if len(got) == 1 else None
+    for g in clo0:
+        if g.cls is not g0.cls and g.cls is not None:
+            continue
+        key = key_of(g)
         rebound = key is None or any(
             isinstance(x, ast.Name) and x.id == key and
             isinstance(x.ctx, ast.Store) for x in own_nodes(g.node))
@@ -1101,7 +1164,8 @@ def rule_not_found_protocol(model):
     # aborts the rendering of a condition that should count as false
     skipped = set()
     g = model.func('_DocumentTemplate', 'TemplateDict.getitem')
-    for x in [y for h_ in model.closure(g) if h_.cls is g.cls
+    for x in [y for h_ in model.closure(g)
+              if h_.cls is g.cls or h_.cls is None
               for y in own_nodes(h_.node)]:
         if isinstance(x, ast.ExceptHandler) and x.type is not None and any(
                 isinstance(y, (ast.Continue, ast.Pass))
